@@ -92,6 +92,20 @@ def split_certs(der):
     return out
 
 
+POST_MARK = bytes((i * 29 + 101) & 255 for i in range(48))          # recognisable plaintext of the post-handshake records below (C19 searches fd 1/2 for it)
+
+
+def post_hs(deviation):
+    """(record / inner content type, payload) a peer sends right after the handshake when asked to: a protected record that is NOT application data"""
+    if deviation == "post_hs_handshake":
+        return 22, b"\x04" + u24(4 + 4 + 1 + 2 + len(POST_MARK) + 2) + bytes(4) + bytes(4) + b"\x00" + u16(len(POST_MARK)) + POST_MARK + u16(0)     # NewSessionTicket-shaped
+    if deviation == "post_hs_ccs":
+        return 20, b"\x01" + POST_MARK
+    if deviation == "post_hs_unknown":
+        return 99, POST_MARK
+    return None
+
+
 def tlcp_client(sock, deviation, client_chain=b"", client_d=0, other_d=12345, proto=257, mut=None):
     """TLCP (ECC_SM4_CBC_SM3: the pre-master secret travels under the server's encryption certificate) or TLS 1.2 (ECDHE_SM4_CBC_SM3) client.
     returns dict(completed=bool, server_finished_ok=bool, alert=...)"""
@@ -189,6 +203,7 @@ def tlcp_client(sock, deviation, client_chain=b"", client_d=0, other_d=12345, pr
     exp = prf(master, b"server finished", sm3(p.transcript), 12)
     res["server_finished_ok"] = (r[0] == 22 and r[1][:1] == b"\x14" and r[1][4:16] == exp)
     res["completed"] = True
+    if post_hs(deviation): p.send_record(*post_hs(deviation))
     p.send_record(23, b"ping")
     return res
 
@@ -287,6 +302,7 @@ def tls13_client(sock, deviation, client_chain=b"", client_d=0, other_d=12345, m
     if deviation == "finished_plain": p.send_hs(20, vd, enc=False)
     elif deviation != "no_finished": p.send_hs(20, vd)
     p.set_write(cap); p.set_read(sap)
+    if post_hs(deviation): p.send_enc(*post_hs(deviation))
     p.send_enc(23, b"ping")
     # the server reports completion in its own trace; from here the peer only learns it by an alert or a hang-up
     p.s.settimeout(3)
@@ -373,6 +389,7 @@ def cbc_server(sock, proto, deviation, chain_der, sign_d, enc_d=0, other_d=54321
     if deviation == "finished_wrong": vd = bytes([vd[0] ^ 1]) + vd[1:]
     p.send_hs(20, vd)
     p.enc_out = True
+    if post_hs(deviation): p.send_record(*post_hs(deviation))
     p.send_record(23, b"ping")
     return {"completed": True}
 
@@ -431,17 +448,18 @@ def tls13_server(sock, deviation, chain_der, sign_d, other_d=54321, mut=None):
     fkc = xlabel(chs, b"finished", b"", 32)
     ok = r[1][:1] == b"\x14" and r[1][4:36] == K.hmac(T, "sm3", fkc, sm3(p.transcript))
     p.set_write(sap); p.set_read(cap)
+    if post_hs(deviation): p.send_enc(*post_hs(deviation))
     p.send_enc(23, b"ping")
     return {"completed": ok}
 
 
-def run_server(creddir, exe, proto, scred, ctrust, deviation, timeout=60, mut=None):
+def run_server(creddir, exe, proto, scred, ctrust, deviation, timeout=60, mut=None, capture=False):
     """spawn the library CLIENT on one end of a socketpair, play the independent server with credential set `scred` on the other"""
     a, b = socket.socketpair()
     import tempfile
     tf = tempfile.NamedTemporaryFile(prefix="rogue_", suffix=".ndjson", dir=os.path.dirname(creddir), delete=False); tf.close()
     env = dict(os.environ, ASAN_OPTIONS="detect_leaks=0:abort_on_error=0:exitcode=99", UBSAN_OPTIONS="halt_on_error=1:exitcode=98")
-    pr = subprocess.Popen([exe, creddir, tf.name, str(b.fileno()), str(proto), "client", "-", ctrust], pass_fds=(b.fileno(),), stdout=subprocess.DEVNULL, stderr=subprocess.PIPE, env=env)
+    pr = subprocess.Popen([exe, creddir, tf.name, str(b.fileno()), str(proto), "client", "-", ctrust], pass_fds=(b.fileno(),), stdout=subprocess.PIPE if capture else subprocess.DEVNULL, stderr=subprocess.PIPE, env=env)
     b.close(); a.settimeout(timeout)
     chain = open(os.path.join(creddir, scred, "chain.der"), "rb").read()
     rd = lambda f: int(open(os.path.join(creddir, scred, f)).read().strip(), 16) if os.path.exists(os.path.join(creddir, scred, f)) else 0
@@ -454,24 +472,24 @@ def run_server(creddir, exe, proto, scred, ctrust, deviation, timeout=60, mut=No
         view = {"completed": False, "why": "peer logic: %r" % ex}
     try: a.close()
     except OSError: pass
-    try: _, err = pr.communicate(timeout=timeout)
+    try: outb, err = pr.communicate(timeout=timeout)
     except subprocess.TimeoutExpired:
-        pr.kill(); _, err = pr.communicate()
+        pr.kill(); outb, err = pr.communicate()
     evs = [json.loads(l) for l in open(tf.name) if l.strip()]
     os.unlink(tf.name)
     e = err.decode(errors="replace"); san = None
     if "Sanitizer" in e or "runtime error" in e or pr.returncode not in (0,):
         san = e[-600:] if ("Sanitizer" in e or "runtime error" in e) else ("exit code %s" % pr.returncode)
-    return view, evs, san
+    return (view, evs, san, (outb or b"") + b"\n" + err) if capture else (view, evs, san)
 
 
-def run(creddir, exe, proto, scred, strust, deviation, ccred="cli_d2", timeout=60, mut=None):
+def run(creddir, exe, proto, scred, strust, deviation, ccred="cli_d2", timeout=60, mut=None, capture=False):
     """spawn the library server on one end of a socketpair, play the rogue client on the other; returns (client view, server events)"""
     a, b = socket.socketpair()
     import tempfile
     tf = tempfile.NamedTemporaryFile(prefix="rogue_", suffix=".ndjson", dir=os.path.dirname(creddir), delete=False); tf.close()
     env = dict(os.environ, ASAN_OPTIONS="detect_leaks=0:abort_on_error=0:exitcode=99", UBSAN_OPTIONS="halt_on_error=1:exitcode=98")
-    pr = subprocess.Popen([exe, creddir, tf.name, str(b.fileno()), str(proto), "server", scred, strust], pass_fds=(b.fileno(),), stdout=subprocess.DEVNULL, stderr=subprocess.PIPE, env=env)
+    pr = subprocess.Popen([exe, creddir, tf.name, str(b.fileno()), str(proto), "server", scred, strust], pass_fds=(b.fileno(),), stdout=subprocess.PIPE if capture else subprocess.DEVNULL, stderr=subprocess.PIPE, env=env)
     b.close()
     a.settimeout(timeout)
     chain = open(os.path.join(creddir, ccred, "chain.der"), "rb").read()
@@ -488,16 +506,16 @@ def run(creddir, exe, proto, scred, strust, deviation, ccred="cli_d2", timeout=6
     except OSError:
         pass
     try:
-        _, err = pr.communicate(timeout=timeout)
+        outb, err = pr.communicate(timeout=timeout)
     except subprocess.TimeoutExpired:
-        pr.kill(); _, err = pr.communicate()
+        pr.kill(); outb, err = pr.communicate()
     evs = [json.loads(l) for l in open(tf.name) if l.strip()]
     os.unlink(tf.name)
     san = None
     e = err.decode(errors="replace")
     if "Sanitizer" in e or "runtime error" in e or pr.returncode not in (0,):
         san = e[-600:] if ("Sanitizer" in e or "runtime error" in e) else ("exit code %s" % pr.returncode)
-    return view, evs, san
+    return (view, evs, san, (outb or b"") + b"\n" + err) if capture else (view, evs, san)
 
 
 if __name__ == "__main__":
